@@ -308,4 +308,219 @@ theorem parseStmt_show (s : S) (rest : List STok) (hs : isStmt s = true) (hrest 
   simp only [List.length_append, List.length_cons]
   omega
 
+/-! ### items -/
+
+/-- what follows a printed item: nothing, or the blank line before the next item -/
+def tailOk (X : List STok) : Prop := X = [] ∨ ∃ Y, X = .nl :: Y
+
+theorem stripSemi_tail (X : List STok) (h : tailOk X) : stripSemi X = X := by
+  rcases h with rfl | ⟨Y, rfl⟩ <;> rfl
+
+theorem body_ok (b : S) (hl : isList b = true) (fuel : Nat) (X : List STok) (hf : need b + 1 ≤ fuel) (hX : tailOk X) :
+    pBrace fuel (showBody b ++ X) = some (b, X, true) := by
+  have := brace_ok b (stmt_all b).2 hl fuel X hf
+  rw [stripSemi_tail X hX] at this
+  simpa [showBody] using this
+
+/-- `, p₂ , p₃ …` -/
+def moreParams : List Nat → List STok
+  | [] => []
+  | p :: ps => .comma :: .param p :: moreParams ps
+
+theorem showParams_cons (p : Nat) (ps : List Nat) : showParams (p :: ps) = .param p :: moreParams ps := by
+  induction ps generalizing p with
+  | nil => rfl
+  | cons q qs ih => simp [showParams, moreParams, ih q]
+
+theorem pParams_more (ps : List Nat) (X : List STok) : ∀ n, ps.length < n →
+    pParams n false (moreParams ps ++ .rparen :: X) = some (ps, X) := by
+  induction ps with
+  | nil =>
+    intro n hn
+    obtain ⟨m, rfl⟩ : ∃ m, n = m + 1 := ⟨n - 1, by simp at hn; omega⟩
+    rfl
+  | cons p ps ih =>
+    intro n hn
+    obtain ⟨m, rfl⟩ : ∃ m, n = m + 1 := ⟨n - 1, by simp at hn; omega⟩
+    have := ih m (by simp at hn; omega)
+    simp only [moreParams, List.cons_append, pParams, Bool.false_eq_true, if_false, skipNl, this]
+
+theorem pParams_show (ps : List Nat) (X : List STok) (n : Nat) (hn : ps.length < n) :
+    pParams (n+1) true (showParams ps ++ .rparen :: X) = some (ps, X) := by
+  cases ps with
+  | nil => rfl
+  | cons p ps =>
+    have := pParams_more ps X n (by simp at hn; omega)
+    rw [showParams_cons]
+    simp only [List.cons_append, pParams, if_true, this]
+
+theorem showParams_length (ps : List Nat) : ps.length ≤ (showParams ps).length := by
+  cases ps with
+  | nil => simp
+  | cons p ps =>
+    rw [showParams_cons]
+    induction ps with
+    | nil => simp [moreParams]
+    | cons q qs ih => simp only [moreParams, List.length_cons] at ih ⊢; omega
+
+/-- `needsTerminator` after the item -/
+def bodiless : Item → Bool
+  | .action _ none => true
+  | _ => false
+
+/-- fuel `stmtsBrace()` needs for the item's body -/
+def itemNeed : Item → Nat
+  | .begin b => need b + 1
+  | .end_ b => need b + 1
+  | .func _ _ b => need b + 1
+  | .action _ (some b) => need b + 1
+  | .action _ none => 0
+
+theorem skipNl_body (b : S) (X : List STok) : skipNl (showBody b ++ X) = showBody b ++ X := rfl
+
+theorem pItemAt_show (i : Item) (X : List STok) (fuel : Nat) (hok : okItem i = true) (hf : itemNeed i ≤ fuel) (hX : tailOk X) :
+    pItemAt fuel (showItem i ++ X) = some (i, X, bodiless i) := by
+  cases i with
+  | begin b =>
+    have := body_ok b hok fuel X hf hX
+    simp only [showItem, List.cons_append, pItemAt, this, bodiless]
+  | end_ b =>
+    have := body_ok b hok fuel X hf hX
+    simp only [showItem, List.cons_append, pItemAt, this, bodiless]
+  | func k ps b =>
+    have hb := body_ok b hok fuel X hf hX
+    have hp := pParams_show ps (showBody b ++ X) (showParams ps ++ .rparen :: (showBody b ++ X)).length
+      (by have := showParams_length ps; simp only [List.length_append, List.length_cons]; omega)
+    simp only [showItem, List.cons_append, List.append_assoc, pItemAt, Nat.succ_eq_add_one, hp, skipNl_body, hb, bodiless]
+  | action pats body =>
+    cases body with
+    | none =>
+      -- a pattern (or a range) without an action
+      match pats, hok with
+      | [c], _ => rcases hX with rfl | ⟨Y, rfl⟩ <;> simp [showItem, showPats, pItemAt, hd, isSep, bodiless]
+      | [c, d], _ => rcases hX with rfl | ⟨Y, rfl⟩ <;> simp [showItem, showPats, pItemAt, hd, isSep, skipNl, bodiless]
+    | some b =>
+      simp only [okItem, Bool.and_eq_true, decide_eq_true_eq] at hok
+      have hb := body_ok b hok.2 fuel X hf hX
+      have e : showBody b ++ X = .lbrace :: .nl :: (showLines b ++ .rbrace :: X) := by simp [showBody]
+      rw [e] at hb
+      match pats, hok.1 with
+      | [], _ => simp [showItem, showPats, pItemAt, showBody, hd, hb, bodiless]
+      | [c], _ => simp [showItem, showPats, pItemAt, showBody, hd, hb, bodiless]
+      | [c, d], _ => simp [showItem, showPats, pItemAt, showBody, hd, isSep, skipNl, hb, bodiless]
+
+/-- the blank line and the remaining items -/
+def restToks : List Item → List STok
+  | [] => []
+  | is => .nl :: .nl :: showProg is
+
+theorem showProg_cons (i : Item) (is : List Item) : showProg (i :: is) = showItem i ++ restToks is := by
+  cases is with
+  | nil => simp [showProg, restToks]
+  | cons j js => simp [showProg, restToks]
+
+theorem restToks_tailOk (is : List Item) : tailOk (restToks is) := by
+  cases is with
+  | nil => exact Or.inl rfl
+  | cons j js => exact Or.inr ⟨_, rfl⟩
+
+/-- a printed item starts with a token that is neither a newline nor a separator -/
+theorem item_head (i : Item) (hok : okItem i = true) (X : List STok) :
+    ∃ t ts, showItem i ++ X = t :: ts ∧ skipNl (t :: ts) = t :: ts := by
+  cases i with
+  | begin b => exact ⟨_, _, rfl, rfl⟩
+  | end_ b => exact ⟨_, _, rfl, rfl⟩
+  | func k ps b => exact ⟨_, _, rfl, rfl⟩
+  | action pats body =>
+    cases body with
+    | none =>
+      match pats, hok with
+      | [c], _ => exact ⟨_, _, rfl, rfl⟩
+      | [c, d], _ => exact ⟨_, _, rfl, rfl⟩
+    | some b =>
+      simp only [okItem, Bool.and_eq_true, decide_eq_true_eq] at hok
+      match pats, hok.1 with
+      | [], _ => exact ⟨_, _, rfl, rfl⟩
+      | [c], _ => exact ⟨_, _, rfl, rfl⟩
+      | [c, d], _ => exact ⟨_, _, rfl, rfl⟩
+
+theorem itemNeed_le (i : Item) (hok : okItem i = true) : itemNeed i ≤ 2 * (showItem i).length + 2 := by
+  cases i with
+  | begin b => have := (need_le b).2 hok; simp only [itemNeed, showItem, showBody, List.length_cons, List.length_append]; omega
+  | end_ b => have := (need_le b).2 hok; simp only [itemNeed, showItem, showBody, List.length_cons, List.length_append]; omega
+  | func k ps b =>
+    have := (need_le b).2 hok
+    simp only [itemNeed, showItem, showBody, List.length_cons, List.length_append]; omega
+  | action pats body =>
+    cases body with
+    | none => simp [itemNeed]
+    | some b =>
+      simp only [okItem, Bool.and_eq_true] at hok
+      have := (need_le b).2 hok.2
+      simp only [itemNeed, showItem, showBody, List.length_cons, List.length_append]; omega
+
+/-- one round of the item loop on a printed item -/
+theorem pItems_step (i : Item) (is : List Item) (n : Nat) (needs : Bool) (pre : List STok) (hok : okItem i = true)
+    (hpre : (pre = [] ∧ needs = false) ∨ pre = [.nl, .nl]) :
+    pItems (n+1) needs (pre ++ (showItem i ++ restToks is)) = (pItems n (bodiless i) (restToks is)).map (i :: ·) := by
+  obtain ⟨t, ts, h1, h2⟩ := item_head i hok (restToks is)
+  have hfuel : ∀ L : List STok, itemNeed i ≤ 2 * (L ++ (showItem i ++ restToks is)).length + 2 := by
+    intro L
+    have := itemNeed_le i hok
+    simp only [List.length_append]; omega
+  have hitem := fun fuel hf => pItemAt_show i (restToks is) fuel hok hf (restToks_tailOk is)
+  rcases hpre with ⟨rfl, rfl⟩ | rfl
+  · rw [List.nil_append, h1]
+    simp only [pItems, Bool.false_eq_true, if_false, h2]
+    rw [← h1, hitem _ (by have := hfuel []; simpa using this)]
+  · have e : [STok.nl, STok.nl] ++ (showItem i ++ restToks is) = .nl :: .nl :: (showItem i ++ restToks is) := rfl
+    rw [e]
+    have hf2 := hfuel [STok.nl, STok.nl]
+    cases needs
+    · simp only [pItems, Bool.false_eq_true, if_false, skipNl, h1, h2]
+      rw [← h1, hitem _ (by simpa using hf2)]
+    · simp only [pItems, if_true, isSep, skipNl, h1, h2]
+      rw [← h1, hitem _ (by simpa using hf2)]
+
+theorem pItems_rest (is : List Item) (hok : ∀ i ∈ is, okItem i = true) : ∀ n needs, is.length < n →
+    pItems n needs (restToks is) = some is := by
+  induction is with
+  | nil =>
+    intro n needs hn
+    obtain ⟨m, rfl⟩ : ∃ m, n = m + 1 := ⟨n - 1, by simp at hn; omega⟩
+    rfl
+  | cons i is ih =>
+    intro n needs hn
+    obtain ⟨m, rfl⟩ : ∃ m, n = m + 1 := ⟨n - 1, by simp at hn; omega⟩
+    have e : restToks (i :: is) = [STok.nl, STok.nl] ++ (showItem i ++ restToks is) := by
+      simp [restToks, showProg_cons]
+    rw [e, pItems_step i is m needs _ (hok i (by simp)) (Or.inr rfl),
+      ih (fun j hj => hok j (by simp [hj])) m _ (by simp at hn; omega)]
+    rfl
+
+theorem restToks_length (is : List Item) : is.length ≤ (restToks is).length := by
+  induction is with
+  | nil => simp [restToks]
+  | cons i is ih =>
+    have : restToks (i :: is) = .nl :: .nl :: (showItem i ++ restToks is) := by simp [restToks, showProg_cons]
+    rw [this]; simp only [List.length_cons, List.length_append]; omega
+
+/-- the printed program skeleton is read back by `program()` as the same list of items -/
+theorem parseProg_show (is : List Item) (hok : ∀ i ∈ is, okItem i = true) : parseProg (showProg is) = some is := by
+  cases is with
+  | nil => rfl
+  | cons i is =>
+    unfold parseProg
+    rw [showProg_cons]
+    have := pItems_step i is (showItem i ++ restToks is).length false [] (hok i (by simp)) (Or.inl ⟨rfl, rfl⟩)
+    rw [List.nil_append] at this
+    rw [this, pItems_rest is (fun j hj => hok j (by simp [hj])) _ _
+      (by
+        have := restToks_length is
+        obtain ⟨t, ts, h1, _⟩ := item_head i (hok i (by simp)) []
+        have h2 : 1 ≤ (showItem i).length := by
+          have := congrArg List.length h1; simp at this; omega
+        simp only [List.length_append]; omega)]
+    rfl
+
 end GoawkModel.C20Stmt
